@@ -1,4 +1,5 @@
 import TsV.Lemmas.Topsort
+import TsV.Lemmas.TopsortOrder
 /-!
 # C11 — each definition once, after the definitions it uses
 
@@ -112,5 +113,38 @@ example : wfGraph [[1], [0], [1]] = true := by decide
 example : toposort [[0], [2], [1]] = some [0, 2, 1] := by
   simp [toposort, inner, List.range, List.range.loop]
 example : sortByIndices [10, 11, 12] [1, 2, 0] = some [11, 12, 10] := by decide
+
+end TsV.C11
+
+namespace TsV.C11
+open TsV.Topsort
+
+/-- `j` is emitted before `i` -/
+def Before (res : List Nat) (j i : Nat) : Prop := ∃ pre post, res = pre ++ i :: post ∧ j ∈ pre
+
+/-- **Topological order**: when the dependency graph is acyclic, every node is emitted after all
+the nodes it depends on (so that eagerly evaluated targets such as Python aliases and unions load). -/
+theorem toposort_topological (g : List (List Nat)) (hac : Acyclic g) (r : List Nat)
+    (h : toposort g = some r) : ∀ i j, i < g.length → Edge g i j → Before r j i := by
+  unfold toposort at h
+  rw [Option.map_eq_some_iff] at h
+  obtain ⟨st', hst, rfl⟩ := h
+  obtain ⟨ho, hc⟩ := inner_ord g hac _ _ _ _ hst (by intro s hs; simp at hs) (by
+    intro pre i post h; simp at h)
+  intro i j hi ⟨deps, hd, hj⟩
+  have hmem : i ∈ st'.res := hc i (by simpa using hi)
+  obtain ⟨pre, post, hsplit⟩ := List.append_of_mem hmem
+  exact ⟨pre, post, hsplit, ho pre i post hsplit deps hd j hj⟩
+
+/-- with the permutation theorem: each node exactly once *and* after its dependencies -/
+theorem toposort_acyclic_spec (g : List (List Nat)) (hg : wfGraph g = true) (hac : Acyclic g) :
+    ∃ r, toposort g = some r ∧ r.Perm (List.range g.length) ∧
+      ∀ i j, i < g.length → Edge g i j → Before r j i := by
+  obtain ⟨r, hr⟩ := Option.isSome_iff_exists.mp (toposort_total g hg)
+  exact ⟨r, hr, toposort_perm g hg r hr, toposort_topological g hac r hr⟩
+
+/-- non-vacuity: the diamond 3 → {1,2} → 0 is acyclic and sorted dependencies-first -/
+example : toposort [[], [0], [0], [1, 2]] = some [0, 1, 2, 3] := by
+  simp [toposort, inner, List.range, List.range.loop]
 
 end TsV.C11
